@@ -2,12 +2,11 @@ package net
 
 import (
 	"context"
+	"crypto/tls"
 	"fmt"
 	"net"
-	"sync"
 	"time"
 
-	"github.com/plgd-dev/go-coap/v3/pkg/verifhook"
 	"go.uber.org/atomic"
 )
 
@@ -18,13 +17,14 @@ type Conn struct {
 	connection       net.Conn
 	closed           atomic.Bool
 	handshakeContext func(ctx context.Context) error
-	lock             sync.Mutex
+	lock             chan struct{} // write lock
 }
 
 // NewConn creates connection over net.Conn.
 func NewConn(c net.Conn) *Conn {
 	connection := Conn{
 		connection: c,
+		lock:       make(chan struct{}, 1),
 	}
 
 	if v, ok := c.(interface {
@@ -80,10 +80,26 @@ func (c *Conn) WriteWithContext(ctx context.Context, data []byte) error {
 		return err
 	}
 	written := 0
-	verifhook.GateAcquire(c)
-	defer verifhook.GateRelease(c)
-	c.lock.Lock()
-	defer c.lock.Unlock()
+	// the write lock is a channel, so that waiting for it ends with the caller's context
+	select {
+	case c.lock <- struct{}{}:
+	case <-ctx.Done():
+		return ctx.Err()
+	}
+	defer func() { <-c.lock }()
+	// The write itself knows nothing of ctx. When ctx ends while the peer does not read (its window is closed, the
+	// socket buffers are full), the write is ended by a deadline, which is taken back afterwards.
+	fired := make(chan struct{})
+	stop := context.AfterFunc(ctx, func() {
+		defer close(fired)
+		_ = c.connection.SetWriteDeadline(time.Unix(1, 0))
+	})
+	defer func() {
+		if !stop() {
+			<-fired
+			_ = c.connection.SetWriteDeadline(time.Time{})
+		}
+	}()
 	for written < len(data) {
 		select {
 		case <-ctx.Done():
@@ -94,10 +110,20 @@ func (c *Conn) WriteWithContext(ctx context.Context, data []byte) error {
 			return ErrConnectionIsClosed
 		}
 		n, err := c.connection.Write(data[written:])
+		if n > 0 {
+			written += n
+		}
 		if err != nil {
+			if ctx.Err() != nil {
+				if _, isTLS := c.connection.(*tls.Conn); written > 0 || isTLS {
+					// the stream ends in the middle of a message (after a write that timed out a TLS
+					// connection refuses every later write): nothing can be sent on it any more
+					_ = c.Close()
+				}
+				return ctx.Err()
+			}
 			return err
 		}
-		written += n
 	}
 	return nil
 }
